@@ -42,7 +42,7 @@ def cases(tier, seed):
                 nZ, nT = bs[2] + rng.choice([1, 5]), max(nT, 9)
             if oracles.pad(nT, b) * oracles.pad(nZ, bs[2]) > 2_000_000:
                 nZ = max(2, min(nZ, 50))
-            how = ['nonumbers', 'single-inline', 'single-crossline', 'single-inline-gathers'][(i + rep) % 4]
+            how = ['nonumbers', 'single-inline', 'single-crossline', 'single-inline-gathers', 'single-inline-prestack', 'nonumbers', 'single-crossline-prestack'][(i + rep) % 7]
             src = conv.src_desc(rng, '2d', (nT, nZ), how2d=how, hdr={'seed': rng.randrange(1 << 20), 'nfields': rng.randint(1, 5), 'inside': True})
             if (i + rep) % 6 == 4:
                 src['fmt'] = [3, 2, 8][i % 3]
@@ -139,7 +139,7 @@ def run_case(case, ctx):
 
 def finalize(tier, cases, results, counters, strata):
     reasons = []
-    need = ['how:nonumbers', 'how:single-inline', 'how:single-crossline', 'how:single-inline-gathers', 'ntraces:<b', 'ntraces:=b', 'ntraces:>b', 'ntraces:>2b', 'bs1:4', 'bs1:other'] + \
+    need = ['how:nonumbers', 'how:single-inline', 'how:single-crossline', 'how:single-inline-gathers', 'how:single-inline-prestack', 'how:single-crossline-prestack', 'ntraces:<b', 'ntraces:=b', 'ntraces:>b', 'ntraces:>2b', 'bs1:4', 'bs1:other'] + \
            ['rate:%s' % r for r in (1, 2, 4, 8, 16, 32)] + ['res4:%d' % i for i in range(4)]
     for s in need:
         if s not in strata:
